@@ -385,6 +385,32 @@ def run(chk, repo, tier):
     chk.ob('C15-b', 'D-pairing', fpad.key, 'pad: each padded wavelength gets one padded value (left with left, right with right)',
            (okpad and npad > 0) if (npad or not okpad) else None, detpad or f'{npad} path(s)', fpad.loc())
 
+    # ... and how many: span / step rounded up, plus the end point that is dropped again - so that a side on which nothing is
+    # to be added contributes nothing (a count forced to two or more repeats the existing end sample there)
+    okcnt, detcnt, ncnt = None, 'undecided: no linspace count found', 0
+    for p in [x for x in ppaths if x.status != 'raise']:
+        st = stores(p)
+        if 'wave' not in st:
+            continue
+        for a in nf.value_atoms(st['wave'][0]):
+            if not (is_app(a, 'linspace') and len(a[2]) >= 3 and isinstance(a[2][2], Poly)):
+                continue
+            ncnt += 1
+            lo_, hi_, cnt = a[2][0], a[2][1], a[2][2]
+            clamp = [x for x in cnt.atoms(deep=False) if is_app(x, ('max', 'maximum', 'clip', 'min', 'minimum', 'abs'))]
+            ce = [x for x in cnt.atoms(deep=False) if is_app(x, ('ceil', 'trunc', 'floor', 'rint', 'round'))]
+            if clamp:
+                okcnt = False
+                detcnt = f'count = {fmt(cnt)[:120]}: clamped - a side that needs no padding still gets a sample, the existing end wavelength twice'
+            elif len(ce) == 1 and is_app(ce[0], 'ceil') and cnt == Poly.atom(ce[0]) + 1 and isinstance(ce[0][2][0], Poly):
+                span = hi_ - lo_
+                step = span / ce[0][2][0] if isinstance(span, Poly) and len(ce[0][2][0].terms) >= 1 else None
+                if okcnt is None:
+                    okcnt, detcnt = True, ''
+            elif okcnt is None:
+                detcnt = f'undecided: count = {fmt(cnt)[:120]}'
+    chk.ob('C15-a', 'N-formula', fpad.key, 'pad: the number of padding wavelengths is ceil(span / step) + 1, the end point dropped again',
+           okcnt, detcnt or f'{ncnt} linspace call(s)', fpad.loc())
     chk.ob('C15-a', 'N-formula', fpad.key, 'pad: the padding wavelengths are counted, they cannot coincide with an existing end sample',
            okgrid if npad else None, detgrid or 'no float-step arange in the padding', fpad.loc())
 
@@ -725,6 +751,36 @@ def integrate_selection_rule(chk, repo, clause):
     chk.ob(clause, 'T-comparison', fi.key, 'selects start <= w <= end (closed on both sides)', verdict,
            '; '.join(sorted(nf.fmt_atom(a) for a in sel)) +
            ('; the selection also depends on ' + ', '.join(sorted(nf.fmt_atom(a)[:70] for a in extra)[:2]) if extra else ''), fi.loc())
+    # a bound that is left out is the end of the grid on that side - each bound on its own: integrate(end=x) stops at x,
+    # integrate(start=x) runs to the last sample
+    for cfg, label, given, side in (({'start': NONE, 'end': S('end')}, 'only end given', 'end', 'hi'),
+                                    ({'start': S('start'), 'end': NONE}, 'only start given', 'start', 'lo')):
+        _, pd, _ = analyse(repo, fi, config=cfg)
+        okd, detd, nd_ = None, 'undecided: no comparison found', 0
+        for p in returns(pd):
+            if any(pol and fmt(c) == f'is({given}, (None))' for c, pol, _ in p.conds):
+                continue            # the path on which the given bound is None after all
+            les = [a for a in nf.value_atoms(p.ret) if is_app(a, ('lt', 'le'))]
+            if not les:
+                continue
+            nd_ += 1
+            if side == 'hi':
+                own = any(a[1] == 'le' and _is_self_array(a[2][0], 'wave') and a[2][1] == S('end') for a in les)
+                dflt = any(a[1] == 'le' and _is_self_array(a[2][1], 'wave') and isinstance(a[2][0], Poly) and
+                           any(is_app(x, ('amin', 'min', 'm:min')) for x in nf.value_atoms(a[2][0])) for a in les)
+            else:
+                own = any(a[1] == 'le' and a[2][0] == S('start') and _is_self_array(a[2][1], 'wave') for a in les)
+                dflt = any(a[1] == 'le' and _is_self_array(a[2][0], 'wave') and isinstance(a[2][1], Poly) and
+                           any(is_app(x, ('amax', 'max', 'm:max')) for x in nf.value_atoms(a[2][1])) for a in les)
+            good = own and dflt
+            if not good:
+                okd = False
+                detd = f'[{label}] selects ' + '; '.join(sorted(nf.fmt_atom(a)[:60] for a in les)) + \
+                    (f': the given `{given}` is not the bound used' if not own else ': the omitted bound is not the end of the grid')
+            elif okd is None:
+                okd, detd = True, ''
+        chk.ob(clause, 'T-comparison', fi.key, f'an omitted bound defaults to the end of the grid on its own side [{label}]', okd,
+               detd or f'{nd_} path(s)', fi.loc())
     quadrature_cover_rule(chk, repo, fi, clause)
 
 
